@@ -143,6 +143,18 @@ Proof.
 Qed.
 Print Assumptions C13_docutils_comma_list.
 
+(* Sphinx conf.py values: create_myst_config passes every registered option explicitly (the conf value,
+   or the registered default = the field of MdParserConfig()); the result is the configuration of the
+   constructor called with the conf values alone *)
+Theorem C13_sphinx_conf_equal : forall imp conf, conf_ok fields conf ->
+  sphinx_config (E_of imp) fields conf = mk_config (E_of imp) fields conf.
+Proof.
+  intros imp conf CO.
+  destruct (mk_config (E_of imp) fields []) as [d|e] eqn:D; [|vm_compute in D; discriminate].
+  apply (sphinx_conf_equal (E_of imp) fields conf d); try assumption; vm_compute; reflexivity.
+Qed.
+Print Assumptions C13_sphinx_conf_equal.
+
 (* the code before the repair (raw value assigned after validation) did not have the property:
    front matter  myst: {url_schemes: [http]}  left a list where the global setting gives a dict *)
 Theorem C13_frontmatter_raw_assignment_refuted :
